@@ -104,7 +104,35 @@ type checkCtx struct {
 	useLedger bool
 	strictNew bool // an undischarged obligation that is in neither ledger is a violation (frame sweep)
 	frontierLedger map[string]bool // obligations known to be undecided on the unchanged tree
+	frontierFuncs  map[string]bool // functions that have at least one such obligation
 	generated map[string]bool
+}
+
+// newRefutedInCleanFunction: the obligation is in neither ledger, the solver REFUTED it (a model exists under everything
+// assumed - not a timeout), and the function it belongs to has no undecided obligation on the unchanged tree: either the
+// function is new or it was entirely proved. Such an obligation is reported. New undecided obligations in functions that
+// already have a frontier stay undecided (the region is imprecise anyway, and harmless edits rename its obligations).
+func (c *checkCtx) newRefutedInCleanFunction(g *gen, o *Obligation) bool {
+	if o.Result != "sat" || g == nil {
+		return false
+	}
+	switch o.Kind {
+	case "nil", "index", "slice", "typeassert", "div", "panic", "makeslice":
+	default:
+		return false
+	}
+	if c.frontierFuncs == nil {
+		c.frontierFuncs = map[string]bool{}
+		for name := range c.frontierLedger {
+			for _, kind := range []string{"/nil/", "/index/", "/slice/", "/typeassert/", "/div/", "/panic/", "/makeslice/", "/nilarg/", "/call/", "/post/", "/loop#"} {
+				if i := strings.Index(name, kind); i > 0 {
+					c.frontierFuncs[name[:i]] = true
+					break
+				}
+			}
+		}
+	}
+	return !c.frontierFuncs[g.key]
 }
 
 type directResult struct {
@@ -269,7 +297,7 @@ func runCheck(repo, prop, tier string, rest []string) int {
 			// a sweep obligation that is not in the ledger of proved obligations: it is a violation only when it
 			// replaces a proved obligation of the same function and kind that is no longer generated (edited code);
 			// otherwise it is undecided and not claimed
-			if c.frontierLedger[o.Name] || (!c.strictNew && !c.replacesProved(o)) {
+			if c.frontierLedger[o.Name] || (!c.strictNew && !c.replacesProved(o) && !c.newRefutedInCleanFunction(j.g, o)) {
 				undecided = append(undecided, o.Name)
 				total--
 				continue
